@@ -1,20 +1,30 @@
 import McpModel.Base.Proto
 import McpModel.TypedTool.GoTy
+import McpModel.TypedTool.Registry
 /-!
 Driver for E12 TypedTool (C16).
 
 Records (ops | implementation observation):
   reset                                                        | ok
-  tool ity=x<json> isch=x<json> oty=x<json> osch=x<json>|-     | ok
-  call args=x<json>|absent out=x<json>|nilptr|nilany content=n|0|1|2 herr=0|1|2
+  server cache=<n>          a new Server (and client) whose SchemaCache is cache n of the case; 0 = none | ok
+  tool name=<t> form=raw|schema isrc=d|e osrc=d|e|none isch=x<json>|- osch=x<json>|- iptr=<n>|- optr=<n>|-
+       ity=x<json> oty=x<json> ikey=<hex> okey=<hex> ider=x<json>|- oder=x<json>|-
+                            AddTool on the current server. isch/osch: the schemas the tool DECLARES (src e);
+                            iptr/optr: identity of the *jsonschema.Schema handed in (form=schema);
+                            ikey/okey: the Go types (pointers stripped); ider/oder: jsonschema.ForType of them
+                                                               | ok pi=x<json> po=x<json>|-   (what tools/list advertises)
+                                                               | addtool-error
+  call [tool=<t>] args=x<json>|absent out=x<json>|nilptr|nilany content=n|0|1|2 herr=0|1|2
         | inv=<0|1> seen=<jv|-> res=<ok|toolerr|rpcerr|panic> sc=<jv|-> content=<blocks|-> lib=<v|i|-> olib=<v|i|->
   f64 <integer>                                                | <integer Go prints for float64(integer)>
 
 `x<json>` is hex of JSON text; `jv` is the blank-free canonical value form (`z t f n<dec> s<hex> [..] {..}`).
 
-The model observation is `call (refEnv lossy64)` — the wrapper with fixes/F09 and fixes/F12 applied.
-The monitor judges the implementation's observation against `call (refEnv id)`: validity by the
-reference validator on exact numbers. Disagreements between `jsonschema-go` (fields `lib`/`olib`,
+The model observation is `call (refEnv lossy64)` — the wrapper with fixes/F09 and fixes/F12 applied —
+over the schemas the registration model (`World.step`: `setSchema` through the case's shared
+`SchemaCache`s, after the whole history of the case) says the tool ENFORCES. The monitor judges the
+implementation's observation against `call (refEnv id)` over the tool's OWN schemas (declared, else
+inferred from its Go type): validity by the reference validator on exact numbers. Disagreements between `jsonschema-go` (fields `lib`/`olib`,
 computed by the harness on exactly decoded values) and the reference validator are reported with the
 clause prefix `LIBDISC` and excluded from the verdict.
 -/
@@ -246,23 +256,88 @@ partial def goTyOfJ : JVal → Option GoTy
 
 /-! ### engine -/
 
+/-- A registered tool: its Go types, its OWN schemas (what the monitor judges by) and the schemas the
+registration model says it enforces (what the model observation is computed from). -/
 structure ToolD where
   ity : GoTy
   oty : GoTy
   isch : Schema
   osch : Option Schema
+  eisch : Schema
+  eosch : Option Schema
 
+def rootObject (s : Schema) : Bool := match s.leaf.ty with | [.object] => true | _ => false
+
+def ToolD.elemZero (d : ToolD) : Option JVal := match d.oty with | .ptr t => some (zeroJ t) | _ => none
+
+/-- the tool as declared -/
 def ToolD.tool (d : ToolD) : Tool Schema :=
   { inSchema := d.isch
     outSchema := d.osch
-    outRootObject := match d.osch with
-      | some s => (match s.leaf.ty with | [.object] => true | _ => false)
-      | none => false
-    elemZero := match d.oty with | .ptr t => some (zeroJ t) | _ => none
+    outRootObject := match d.osch with | some s => rootObject s | none => false
+    elemZero := d.elemZero
     decodeIn := project d.ity }
 
+/-- the tool as registered (`Entry.tool`) -/
+def ToolD.enforced (d : ToolD) : Tool Schema :=
+  Entry.tool { pubIn := d.isch, enfIn := d.eisch, pubOut := d.osch, enfOut := d.eosch } rootObject d.elemZero (project d.ity)
+
 structure DState where
-  tool : Option ToolD := none
+  world : World String Schema := {}
+  /-- Go types and OWN schemas (`Decl.ownIn`/`Decl.ownOut`) of the current server's tools -/
+  tys : List (String × GoTy × GoTy × Schema × Option Schema) := []
+  last : Option String := none
+
+def objectSchema : Schema := .mk { ty := [.object] } [] none none
+
+/-! ### schema equality (what tools/list advertises against the tool's own schema) -/
+
+def optEqv (a b : Option JVal) : Bool :=
+  match a, b with
+  | none, none => true
+  | some x, some y => x.eqv y
+  | _, _ => false
+
+def optDecEq (a b : Option Dec) : Bool :=
+  match a, b with
+  | none, none => true
+  | some x, some y => x.eq y
+  | _, _ => false
+
+def leafSame (a b : Leaf) : Bool :=
+  a.ty == b.ty &&
+  (match a.enum, b.enum with
+   | none, none => true
+   | some x, some y => x.length == y.length && (x.zip y).all (fun p => p.1.eqv p.2)
+   | _, _ => false) &&
+  optEqv a.const b.const && optDecEq a.minimum b.minimum && optDecEq a.maximum b.maximum &&
+  a.minLength == b.minLength && a.maxLength == b.maxLength && a.required == b.required &&
+  a.apFalse == b.apFalse && optEqv a.dflt b.dflt
+
+def isAnySchema : Schema → Bool
+  | .mk c ps ap items =>
+    c.ty.isEmpty && c.enum.isNone && c.const.isNone && c.minimum.isNone && c.maximum.isNone && c.minLength.isNone &&
+    c.maxLength.isNone && c.required.isEmpty && !c.apFalse && c.dflt.isNone && ps.isEmpty && ap.isNone && items.isNone
+
+def lookupP (k : String) : Props → Option Schema
+  | [] => none
+  | (k', s) :: t => if k' = k then some s else lookupP k t
+
+/-- same schema: keywords by value, `properties` as a map, an absent subschema = the empty schema -/
+partial def sameSchema : Schema → Schema → Bool
+  | .mk c1 p1 a1 i1, .mk c2 p2 a2 i2 =>
+    leafSame c1 c2 && p1.length == p2.length &&
+    p1.all (fun kv => match lookupP kv.1 p2 with | some s2 => sameSchema kv.2 s2 | none => false) &&
+    sameOpt a1 a2 && sameOpt i1 i2
+where
+  sameOpt (a b : Option Schema) : Bool :=
+    let norm (o : Option Schema) : Option Schema := match o with
+      | some s => if isAnySchema s then none else some s
+      | none => none
+    match norm a, norm b with
+    | none, none => true
+    | some x, some y => sameSchema x y
+    | _, _ => false
 
 def kv (tok : String) : Option (String × String) :=
   match tok.splitOn "=" with
@@ -391,6 +466,56 @@ def monitor (d : ToolD) (ci : CallIn) (o : Obs) : Option String :=
     some "C16: text_fallback_iff_no_content: content is not the handler's content plus the serialized structured content where required"
   else none
 
+/-- the `tool` op: the declaration, the inference results for its two Go types, its Go types -/
+structure ToolOp where
+  name : String
+  ity : GoTy
+  oty : GoTy
+  decl : Decl String Schema
+  env : RegEnv String Schema
+  /-- the tokens of the own schemas (for rendering the expected observation) -/
+  ownI : String
+  ownO : String
+
+def parseGiven (rest : List String) (src tok ptr : String) : Option (Option (Given Schema)) :=
+  if getKV rest src == some "e" then do
+    let s ← (getKV rest tok) >>= parseXJson >>= schemaOfJ
+    let p := if getKV rest "form" == some "schema" then (getKV rest ptr) >>= String.toNat? else none
+    some (some { ptr := p, content := s })
+  else some none
+
+def parseToolOp (rest : List String) : Option ToolOp := do
+  let ity ← (getKV rest "ity") >>= parseXJson >>= goTyOfJ
+  let oty ← (getKV rest "oty") >>= parseXJson >>= goTyOfJ
+  let ikey ← getKV rest "ikey"
+  let okey ← getKV rest "okey"
+  let derived (tok : String) : Option (Option Schema) :=
+    match getKV rest tok with
+    | some "-" => some none
+    | some t => (parseXJson t >>= schemaOfJ).map some
+    | none => none
+  let ider ← derived "ider"
+  let oder ← derived "oder"
+  let gi ← parseGiven rest "isrc" "isch" "iptr"
+  let go ← parseGiven rest "osrc" "osch" "optr"
+  let inAny := match ity with | .any => true | _ => false
+  let outAny := match oty with | .any => true | _ => false
+  let env : RegEnv String Schema :=
+    { derive := fun k => if k == ikey then ider.getD objectSchema else oder.getD objectSchema
+      resolves := defaultsValid
+      objectSchema := objectSchema }
+  let objTok := "x" ++ stringToHex "{\"type\":\"object\"}"
+  let ownI := if gi.isSome then (getKV rest "isch").getD "?" else if inAny then objTok else (getKV rest "ider").getD "?"
+  let ownO := if go.isSome then (getKV rest "osch").getD "?" else if outAny then "-" else (getKV rest "oder").getD "?"
+  some { name := (getKV rest "name").getD "t", ity, oty, env, ownI, ownO
+         decl := { inKey := ikey, inAny, inGiven := gi, outKey := okey, outAny, outGiven := go } }
+
+def DState.toolD (d : DState) (name : String) : Option ToolD :=
+  match d.world.tools.find? (·.1 == name), d.tys.find? (·.1 == name) with
+  | some (_, _, e), some (_, ity, oty, isch, osch) =>
+    some { ity, oty, isch, osch, eisch := e.enfIn, eosch := e.enfOut }
+  | _, _ => none
+
 def engine : Engine DState where
   init := {}
   step d toks impl :=
@@ -400,36 +525,53 @@ def engine : Engine DState where
       match n.toInt? with
       | some i => (d, { model := showDec (f64Dec (.ofInt i)) })
       | none => (d, { model := "bad-op" })
+    | "server" :: rest =>
+      match (getKV rest "cache") >>= String.toNat? with
+      | some n => ({ world := d.world.step (refReg) (.server (if n == 0 then none else some n)), tys := [], last := none },
+                   { model := "ok" })
+      | none => (d, { model := "bad-op" })
     | "tool" :: rest =>
-      let td : Option ToolD := do
-        let ity ← (getKV rest "ity") >>= parseXJson >>= goTyOfJ
-        let oty ← (getKV rest "oty") >>= parseXJson >>= goTyOfJ
-        let isch ← (getKV rest "isch") >>= parseXJson >>= schemaOfJ
-        let os ← getKV rest "osch"
-        let osch ← if os == "-" then some none else (parseXJson os >>= schemaOfJ).map some
-        some { ity, oty, isch, osch }
-      match td with
-      | some t => (if impl == "ok" then { tool := some t } else { tool := none }, { model := "ok" })
-      | none =>
-        -- registration failed in the harness (the op carries only the explicit schemas): AddTool must
-        -- reject exactly the schemas with a default that is invalid for its own subschema
-        let explicit (src tok : String) : Option (Option Schema) :=
-          if getKV rest src == some "e" then ((getKV rest tok) >>= parseXJson >>= schemaOfJ).map some else some none
-        match getKV rest "ity", explicit "isrc" "isch", explicit "osrc" "osch" with
-        | none, some i, some o =>
-          let ok := (match i with | some s => defaultsValid s | none => true) &&
-                    (match o with | some s => defaultsValid s | none => true)
-          ({ tool := none }, { model := if ok then "ok" else "addtool-error" })
-        | _, _, _ => ({ tool := none }, { model := "bad-op" })
+      match parseToolOp rest with
+      | none => (d, { model := "bad-op" })
+      | some t =>
+        match (register t.env d.world.cacheOf t.decl).1 with
+        | none =>
+          -- AddTool must reject exactly the declared schemas with a default that is invalid for its own
+          -- subschema; the cache keeps what the input side stored
+          ({ d with world := d.world.step t.env (.add t.name t.decl) }, { model := "addtool-error" })
+        | some _ =>
+          let w := d.world.step t.env (.add t.name t.decl)
+          let d' : DState :=
+            if impl.startsWith "ok" then
+              { world := w, tys := (t.name, t.ity, t.oty, t.decl.ownIn t.env, t.decl.ownOut t.env) :: d.tys.filter (·.1 != t.name), last := some t.name }
+            else { d with world := { w with tools := w.tools.filter (·.1 != t.name) }, tys := d.tys.filter (·.1 != t.name) }
+          let expected := s!"ok pi={t.ownI} po={t.ownO}"
+          if !impl.startsWith "ok" then (d', { model := expected }) else
+          -- what tools/list advertises must be the tool's own schemas
+          let itoks := words impl
+          let pubI := (getKV itoks "pi") >>= parseXJson >>= schemaOfJ
+          let pubO : Option (Option Schema) := match getKV itoks "po" with
+            | some "-" => some none
+            | some tk => (parseXJson tk >>= schemaOfJ).map some
+            | none => none
+          let okI := match pubI with | some p => sameSchema p (t.decl.ownIn t.env) | none => false
+          let okO := match pubO, t.decl.ownOut t.env with
+            | some none, none => true
+            | some (some p), some o => sameSchema p o
+            | _, _ => false
+          if okI && okO then (d', { model := impl })
+          else (d', { model := expected,
+                      violated := some (if okI then "C16: published_schema_is_own: tools/list advertises an output schema that is not the tool's own (declared, else inferred from its Go type)"
+                                        else "C16: published_schema_is_own: tools/list advertises an input schema that is not the tool's own (declared, else inferred from its Go type)") })
     | "call" :: rest =>
-      match d.tool with
+      match ((getKV rest "tool") <|> d.last) >>= d.toolD with
       | none => (d, { model := "no-tool" })
       | some td =>
         match parseCall td rest with
         | none => (d, { model := "bad-op" })
         | some ci =>
           let t := td.tool
-          let rep := call (refEnv lossy64) t ci.h ci.args
+          let rep := call (refEnv lossy64) td.enforced ci.h ci.args
           -- the reference validator's own verdicts, on exact values
           let lib := match argsMap ci.args with
             | some m => vi (valid td.isch (fill td.isch m))
@@ -451,6 +593,8 @@ def engine : Engine DState where
     | _ => (d, { model := "bad-op" })
 where
   idealEnv' : Env Schema := refEnv id
+  /-- `server` steps do not consult the environment -/
+  refReg : RegEnv String Schema := { derive := fun _ => objectSchema, resolves := defaultsValid, objectSchema := objectSchema }
 
 end TypedTool
 
